@@ -146,3 +146,23 @@ def set_default_doc_replay():
         if out["doc"] != doc:
             return {"call": "cdd.shared.defaults_utils.set_default_doc(('x', %r), emit_default_doc=True)" % (p,), "what": "a description that already announces its default was changed to %r" % out["doc"]}
     return None
+
+
+def optional_iff_not_required_replay():
+    """The contract on the Optional step of json_schema_property_to_param on the real function"""
+    import copy
+
+    from cdd.json_schema.utils.parse_utils import json_schema_property_to_param
+
+    for prop in ({"type": "integer", "description": "the alpha", "default": 7}, {"type": "string", "description": "the s", "default": "x"}, {"type": "number", "description": "the f"},
+                 {"type": "boolean", "description": "the b", "default": False}, {"type": "integer", "description": "the n", "default": None}):
+        for required in (frozenset(), frozenset(("alpha",))):
+            try:
+                _n, out = json_schema_property_to_param(("alpha", copy.deepcopy(prop)), required)
+            except Exception:
+                continue
+            want_optional = "alpha" not in required
+            if out.get("typ", "").startswith("Optional[") != want_optional:
+                return {"call": "cdd.json_schema.utils.parse_utils.json_schema_property_to_param(('alpha', %r), required=%r)" % (prop, sorted(required)),
+                        "what": "the type comes back as %r: a property that is %s must come back %s" % (out.get("typ"), "not listed in `required`" if want_optional else "required", "as Optional[...]" if want_optional else "unwrapped")}
+    return None
